@@ -86,6 +86,21 @@ PROPS = {
              rule="every serialisable type at f64 (typical and special floats: -0.0, subnormal, extremes); Decomposed documents: all 6 key orders, every omission, unknown key in every position, duplicated keys; non-trivial = all; distinct by hash",
              coverage_extra={"exhaustive_over": "key orders / single omissions / unknown-key positions of Decomposed documents"},
              trusted=["serde derive expansion and serde_json (the format)", "rustc"]),
+    "C13": P(13, axioms=R_AXIOMS, axiom_patterns=[r"PrimInt63\..*", r"Uint63\..*", r"PrimFloat\..*", r"FloatAxioms\..*", r"Sint63\..*", r"FloatOps\..*"],
+             undetermined=[r"^(asin|acos|atan|atan2)(_deg)?$"],
+             assumptions=["model (coq/Model/Angle.v) is hand-written; tied to /repo by the exact-arithmetic correspondence of this run",
+              "modular clauses (normalize, normalize_signed, opposite, bisect, turn fractions): exact reals, any positive full turn; `%` is the truncated remainder",
+              "trigonometry: the scalar's sin/cos/tan and inverse functions are oracles (Trig record); over R they are the standard library's, atan2 as characterised in Proofs/RealInst.v; "
+              "the correspondence uses a lattice of angles with rational sines/cosines and, for generic inverse arguments, the exact rational value of the f64 libm answer",
+              "float clauses (C13_roundtrip_floats, C13_range_floats): Flocq FLT formats for binary32/binary64, round to nearest even, no overflow (unbounded exponent upwards), "
+              "`%` exact (IEEE fmod is exact), T/2 exactly representable; round trip stated above the subnormal range (|x| >= 2^-1009 resp. 2^-113); the constants are the exact values "
+              "the implementation passes to cast (checked by the f32_*/f64_* constant cases of the correspondence and C13_float_constants_tied)",
+              "bisect: the theorem is about the code as repaired by /repo 6eacb2d; the previous formula is refuted by C13_bisect_old_refuted"],
+             rule="both units x (generic small angles, many turns of both signs, exact multiples of the full/half/quarter turn, +-2^-80 around 0, the half and the full turn, 2^70 turns) for the modular "
+                  "functions and arithmetic; lattice angles k*v + j*(pi/2) for trigonometry; native f32/f64: boundary sweeps (+-eps, full/half turn +- 3 ulp, subnormals, extremes) for range "
+                  "membership, random normal-range values for the 4-eps round trip, bitwise comparison of every trig/inverse function with the scalar function of the radian measure; "
+                  "non-trivial = tag nt:*; distinct by hash",
+             trusted=["rustc monomorphisation of the generic code at Xq, f32, f64", "libm for the native trig-wiring comparisons (same function on both sides)"]),
     "C12": P(12, assumptions=["model (coq/Model/Point.v) is hand-written; tied to /repo by the exact-arithmetic correspondence of this run",
               "integer scalar types: only no-overflow inputs", "centroid of the empty list divides by cast(0): outside the property (non-empty lists)"],
              trusted=["rustc monomorphisation of the generic code at Xq and i32"]),
